@@ -130,6 +130,7 @@ RemOk(t)           == Ok(RemOp(t))
 RemNo(t, cause)    == No(RemOp(t), cause)
 AllowWrite         == Do(Plain("allow_write"))
 Enter              == ~s.m.inside /\ Do(Plain("enter"))
+ReEnter            == s.m.inside /\ Do(Plain("enter"))      \* nested with on the same object
 Exit               == s.m.inside /\ Do(Plain("exit"))
 ExitExc            == s.m.inside /\ Do(Plain("exit_exc"))
 Read(w, t)         == Do(ReadOp(w, t))
@@ -141,7 +142,7 @@ Next ==
         \/ \E c \in RepCs : RepOk(u, c) \/ \E cause \in AllCauses : RepNo(u, c, cause)
         \/ SetOk(u) \/ \E cause \in AllCauses : SetNo(u, cause)
   \/ \E t \in Types : RemOk(t) \/ \E cause \in AllCauses : RemNo(t, cause)
-  \/ AllowWrite \/ Enter \/ Exit \/ ExitExc
+  \/ AllowWrite \/ Enter \/ ReEnter \/ Exit \/ ExitExc
   \/ \E w \in Readers, t \in WT : Read(w, t)
 
 Spec == Init /\ [][Next]_vars
